@@ -80,6 +80,7 @@ type mTCP struct {
 }
 
 type mAlloc struct {
+	TrailPerms map[string][]*period // permissions named only behind MESSAGE-INTEGRITY (see Monitor.respCreatePerm)
 	Seq      int
 	Client   string // client transport address "ip:port" (5-tuple; listener fixed per world)
 	User     string
